@@ -28,7 +28,7 @@ EXPLANATION = (
 NOT_DECIDED = ["that unit k holds the text of page k", "heading-section units of docx/doc/odt (text partition is value level)", "mbox message boundaries (regex semantics)",
                "legacy PPT slide lists: text-less slides are dropped when any slide has text (open known finding)"]
 TRUSTED = ["pypdf reader.pages, openpyxl sheetnames, xlrd sheets(), ElementTree findall enumerate the source units in order", "CFG path enumeration"]
-FLOORS = {"C03-FILT": 2, "C03-JOIN": 11, "C03-NUM": 25, "C03-FILL": 8, "C03-SEP": 36, "C03-COVER": 6, "C03-KIND": 1, "C03-PART": 5}
+FLOORS = {"C03-FILT": 2, "C03-JOIN": 11, "C03-NUM": 25, "C03-FILL": 8, "C03-SEP": 36, "C03-COVER": 6, "C03-KIND": 1, "C03-PART": 5, "C03-REF": 3}
 
 JOIN_CLASSES = ["PdfContent", "PptxContent", "OdpContent", "XlsxContent", "OdsContent", "EpubContent", "HtmlContent", "PlainTextContent", "EmailContent", "OdgContent", "OdfContent"]
 # content class -> (collection, how the number is obtained in iterate_units: 'enumerate' | '<field on element>')
@@ -674,4 +674,14 @@ def _parses(c: str) -> bool:
         return False
 
 
-RULES = [rule_join, rule_num, rule_fill, rule_filt, rule_cover, rule_sep, rule_kind, rule_part]
+def rule_ref(ctx: Ctx) -> RuleReport:
+    """One unit per spine chapter: a chapter whose href is resolved to a part that does not exist is silently left out and the later
+    chapters are numbered lower (= the EPUB clauses of C14-REF)."""
+    from sa.rules.c14 import epub_href_clauses
+
+    rep = RuleReport("C03-REF", "EPUB spine hrefs are resolved to part names by the rules of RFC 3986 / OPF: fragment cut first, then percent-decoded, dot segments resolved")
+    epub_href_clauses(ctx, rep, "C03-REF")
+    return rep
+
+
+RULES = [rule_join, rule_num, rule_fill, rule_filt, rule_cover, rule_sep, rule_kind, rule_part, rule_ref]
